@@ -34,6 +34,9 @@ def run(run):
         guard_lives_across_awaits(run, f, det)
         destructor(run, f, det)
         panic_condition(run, f, det)
+        # "only if there really is a chain": the cycle walk answers true only when it found the asker (C14's walk rules:
+        # direction, advance, verdicts)
+        c14.direction(run, f, det)
         edge_outlives_request(run, f)
         # residue through poisoning: WaitForGuard::drop skips the removal when the lock is poisoned,
         # so "no residue" needs the lock to be unpoisonable: no panic while the guard is live
